@@ -20,6 +20,15 @@ def fetchAncestors (d : Durable) (n id : Nat) : Option (Nat × List Nat) :=
 def fetchFilterByHash (d : Durable) (id : Nat) : Option Nat :=
   (d.db.height? id).bind d.ff.get?
 
+/-- `filterHeaderStore.FetchHeaderAncestors(numHeaders, stopHash)`: the height
+of `stopHash` comes from the shared BLOCK index, the range from the FILTER
+file — which is shorter than the index says whenever the block store is ahead.
+A range that is not entirely in the file is an error, whatever part of it is. -/
+def fetchFilterAncestors (d : Durable) (n id : Nat) : Option (Nat × List Nat) :=
+  match d.db.height? id with
+  | none => none
+  | some h => if n > h then none else (readRange d.ff (h - n) h).map (fun hs => (h - n, hs))
+
 /-- `LatestBlockLocator`: the tip, then the entries at `locatorHeights` -/
 def locator (d : Durable) : Option (List Nat) :=
   match btipHeight? d with
